@@ -215,10 +215,10 @@ class ShapeAnalyzer:
             sel = dists < radius
             close = positions[sel.flatten()]
 
-            # digitize differences to move all close positions to
-            # same sphere around coordr
-            offsets = np.digitize(close - sym_coords, bins=[0.5, -0.4999999]) - 1
-            close += offsets
+            # shift all close positions by whole lattice vectors into the same
+            # sphere around the symmetry image; the image may lie outside the
+            # unit cell, so the shift can be more than one cell
+            close -= np.round(close - sym_coords)
 
             inversed = op.inverse.operate_multi(close)
 
